@@ -9,6 +9,36 @@ DATES = [("2020-07-13T05:46:45Z", "2021-07-13T05:46:45Z"), ("2019-10-01T00:00:00
          ("2024-02-29T23:59:59Z", "2999-12-31T00:00:00Z")]
 
 
+# role names are arbitrary strings: hierarchical (TUF style), file-name like, colliding after a transformation (suffix, case, trimming,
+# Unicode normalisation), empty-ish, very long ... all of them are just names
+UNUSUAL_ROLE_NAMES = ["pkg_mgr/main", "a\\b", "../root", "key_mgr.json", "root.json", "pkg_mgr.json", "Root", "ROOT", "root ", " root", "ro\u200bot", "\uff52oot",
+                      "ro\u0301ot", "r\u00f3ot", "channel:main", "*", ".", "..", "x" * 300, "0", "null", "true", "__proto__", "signatures", "signed", "delegations",
+                      "pubkeys", "threshold", "\U0001f511", "tab\there", "new\nline"]
+
+
+def unusual_roles(r: random.Random, keyhex, n=None):
+    """A few further delegations under unusual (but perfectly valid) role names."""
+    names = r.sample(UNUSUAL_ROLE_NAMES, n or r.choice([1, 2, 3, 6]))
+    return {nm: {"pubkeys": [keyhex] if keyhex and r.random() < 0.7 else [], "threshold": r.choice([1, 1, 2])} for nm in names}
+
+
+SHADOW_POOL = []      # set by the engines: every key of the current world, so that shadowing members can name keys that would satisfy a rule
+
+
+def shadow_members(delegations, r: random.Random):
+    """Extra members of the signed part (extra members are allowed there) whose NAMES are those of members one level down or of the
+    envelope: a top-level `pubkeys` / `threshold`, role names, `signatures` / `signed`, TUF's `keys` / `roles`.  They mean nothing."""
+    pool = list(SHADOW_POOL)
+    for d in delegations.values() if isinstance(delegations, dict) else []:
+        if isinstance(d, dict) and isinstance(d.get("pubkeys"), list):
+            pool += [k for k in d["pubkeys"] if isinstance(k, str) and k not in pool]
+    rule1 = {"pubkeys": list(pool), "threshold": 1}
+    cands = [("pubkeys", list(pool)), ("threshold", 1), ("root", copy.deepcopy(rule1)), ("key_mgr", copy.deepcopy(rule1)), ("pkg_mgr", copy.deepcopy(rule1)),
+             ("signatures", {}), ("signed", {"type": "root", "delegations": {"root": copy.deepcopy(rule1)}}), ("keys", list(pool)), ("roles", {"root": copy.deepcopy(rule1)}),
+             ("delegation", copy.deepcopy(rule1)), ("Delegations", {"root": copy.deepcopy(rule1)}), ("Version", 99), ("version ", 99)]
+    return dict(r.sample(cands, r.choice([1, 2, 2, 4])))
+
+
 def delegating_doc(mtype, version, delegations, r: random.Random, tag=None, with_timestamp=True):
     ts, exp = r.choice(DATES)
     d = {"type": mtype, "metadata_spec_version": r.choice(["0.6.0", "0.1.0", "1.0"]),
@@ -19,6 +49,8 @@ def delegating_doc(mtype, version, delegations, r: random.Random, tag=None, with
         d["timestamp"] = ts
     if tag is not None:
         d["x-tag"] = tag      # extra fields inside the signed part are allowed by the schema
+    if r.random() < 0.2:
+        d.update(shadow_members(delegations, r))
     return d
 
 
